@@ -36,6 +36,7 @@ type wnMarker struct {
 
 type wnDoc struct {
 	src     string
+	srcCut  string // the same document with everything inside skipped elements left out
 	markers []wnMarker
 	hasSkip bool // contains at least one skipped region
 	feat    map[string]bool
@@ -155,12 +156,15 @@ func wnNames(e *Env) []string {
 // render serialises the forest and classifies every marker.
 func (e *Env) wnRender(r *rand.Rand, forest []*wnNode, noise int) wnDoc {
 	d := wnDoc{feat: map[string]bool{}}
-	var b strings.Builder
+	var b, cut strings.Builder
 	var walk func(ns []*wnNode, inside bool, path []string)
 	walk = func(ns []*wnNode, inside bool, path []string) {
 		for _, n := range ns {
 			if n.name == "" {
 				b.WriteString(n.text)
+				if !inside {
+					cut.WriteString(n.text)
+				}
 				d.markers = append(d.markers, wnMarker{m: n.text, inside: inside, path: strings.Join(path, ">")})
 				continue
 			}
@@ -175,7 +179,11 @@ func (e *Env) wnRender(r *rand.Rand, forest []*wnNode, noise int) wnDoc {
 				d.tags = append(d.tags, "S:"+n.name)
 			}
 			g := &gen.Node{Name: n.name, Attrs: n.attrs, SelfCl: n.selfCl, NoEnd: true}
-			b.WriteString(gen.Serialize(r, []*gen.Node{g}, noise))
+			tag := gen.Serialize(r, []*gen.Node{g}, noise)
+			b.WriteString(tag)
+			if !inside {
+				cut.WriteString(tag)
+			}
 			if oracle.Void[n.name] || n.selfCl {
 				if n.selfCl && !oracle.Void[n.name] {
 					d.feat["self-closed-foreign:"+cat] = true
@@ -188,11 +196,15 @@ func (e *Env) wnRender(r *rand.Rand, forest []*wnNode, noise int) wnDoc {
 			}
 			walk(n.kids, childInside, append(path, cat))
 			b.WriteString("</" + n.name + ">")
+			if !inside {
+				cut.WriteString("</" + n.name + ">")
+			}
 			d.tags = append(d.tags, "E:"+n.name)
 		}
 	}
 	walk(forest, false, nil)
 	d.src = b.String()
+	d.srcCut = cut.String()
 	return d
 }
 
@@ -264,6 +276,21 @@ func c08Judge(cs *core.Case, env *Env, d *wnDoc, out string, lc core.LocalCounts
 	}
 	if d.hasSkip {
 		lc["documents_with_skipped_region"]++
+		// markup too: the document with the inside of every skipped element cut out must give the same
+		// result (with AddSpaceWhenStrippingTag a dropped tag leaves a space even inside a skipped
+		// element, so spaces are not compared there)
+		if d.srcCut != d.src {
+			out2 := env.Pol.Sanitize(d.srcCut)
+			a, b := out, out2
+			if env.Spec.AddSpaces {
+				a, b = strings.ReplaceAll(a, " ", ""), strings.ReplaceAll(b, " ", "")
+			}
+			lc["cut_out_comparisons"]++
+			if a != b {
+				w := map[string]interface{}{"policy": spec.Describe(env.Ops), "ops": env.Ops, "input": core.Show(d.src), "output": core.Show(out), "input_without_skipped_content": core.Show(d.srcCut), "output_without_skipped_content": core.Show(out2)}
+				cs.Violate("C08:skipped-content-shows:"+firstDiffToken(a, b)+":"+wnFeatureSig(d), fmt.Sprintf("the content of skipped elements influences the output: with it %q, with it cut out %q; input=%q", core.Clip(out, 300), core.Clip(out2, 300), core.Clip(d.src, 400)), w)
+			}
+		}
 	}
 	for f := range d.feat {
 		if strings.HasPrefix(f, "self-closed-foreign:") {
@@ -412,7 +439,7 @@ func wnWorkload(ctx *core.Ctx, judge func(cs *core.Case, env *Env, d *wnDoc, out
 		}
 		cs.Flush(lc)
 	})
-	// deep chains: 65-300 nested elements of one or two kinds (depth thresholds in the drop stack,
+	// deep chains: 65-300 (some 513-1100, one in twelve ~2100) nested elements of one or two kinds (depth thresholds in the drop stack,
 	// the skip counter or any per-level bookkeeping)
 	ctx.Run("deep-chains", ctx.N(120, 1200), func(cs *core.Case) {
 		env := NewEnv(fixed[cs.Index%len(fixed)])
@@ -421,6 +448,12 @@ func wnWorkload(ctx *core.Ctx, judge func(cs *core.Case, env *Env, d *wnDoc, out
 		kinds := []string{"a", "b", "x", "object", "my-x", "p", "a+href", "img", "span", "iframe-not"}
 		for i := 0; i < 12; i++ {
 			depth := 65 + r.Intn(240)
+			switch i {
+			case 3, 7: // past 512 and 1024
+				depth = 513 + r.Intn(600)
+			case 11: // past 2048
+				depth = 2049 + r.Intn(100)
+			}
 			k1, k2 := kinds[r.Intn(len(kinds))], kinds[r.Intn(len(kinds))]
 			mk := 0
 			var build func(d int) []*wnNode
@@ -446,6 +479,9 @@ func wnWorkload(ctx *core.Ctx, judge func(cs *core.Case, env *Env, d *wnDoc, out
 				nd.kids = build(d - 1)
 				if d%7 == 0 {
 					return []*wnNode{leaf, nd}
+				}
+				if d%5 == 0 || d == depth { // text after the element closes, at every fifth level and at the very end
+					return []*wnNode{nd, leaf}
 				}
 				return []*wnNode{nd}
 			}
